@@ -52,7 +52,13 @@ pub const PROP: Prop = Prop {
            counts, is_empty, find_by_revision for every patch, revision, review, comment and issue id ever \
            produced, the two latest other entry ids, foreign ids and a random probe). Non-trivial: at some step \
            the store held >= 2 objects in >= 2 different statuses and find_by_revision was asked with a \
-           comment id, review id or redacted revision id. Distinct = hash of the whole case.",
+           comment id, review id or redacted revision id. Distinct = hash of the whole case. Sub-space \
+           'fetch-batches': 1-3 rounds of <= 8 changes made behind the cache's back (new issue/patch, comment, \
+           label, close, remove, objects of the issue/patch type that cannot be evaluated, objects of another \
+           type), the reference updates of the round in a generated order handed to the node's real \
+           worker::fetch::cache_cobs (verif-hooks), then get/list/list_by_status/counts compared for every \
+           object that direct evaluation can load; non-trivial there: a round with an unloadable object and \
+           >= 1 loadable update.",
     assumptions: &[
         "all changes are honest (made through the public Patches/Issues API); rejected operations leave both views unchanged",
         "every update made behind the cache's back is followed by the cache refresh that the fetch worker performs",
@@ -201,20 +207,20 @@ fn case_strategy() -> impl Strategy<Value = Case> {
 // World
 // ---------------------------------------------------------------------------
 
-struct World {
+pub(super) struct World {
     _tmp: tempfile::TempDir,
-    repo: Repository,
-    signers: Vec<Device<MockSigner>>,
+    pub(super) repo: Repository,
+    pub(super) signers: Vec<Device<MockSigner>>,
     /// (base, head) pairs for revisions
-    branches: Vec<(Oid, Oid)>,
+    pub(super) branches: Vec<(Oid, Oid)>,
     /// merge commit candidates: the first two are in every default branch, the others in none
     merge_commits: Vec<Oid>,
     embed: Embed<Uri>,
 }
 
-const T0: u64 = 1_700_000_000;
+pub(super) const T0: u64 = 1_700_000_000;
 
-fn set_clock(t: u64) {
+pub(super) fn set_clock(t: u64) {
     std::env::set_var("GIT_COMMITTER_DATE", t.to_string());
 }
 
@@ -226,7 +232,7 @@ fn signer(ix: u8) -> Device<MockSigner> {
     Device::mock_from_seed(seed)
 }
 
-fn world(threshold: u8) -> World {
+pub(super) fn world(threshold: u8) -> World {
     set_clock(T0);
     let tmp = crate::lab::tempdir();
     let signers: Vec<Device<MockSigner>> = (0..3).map(signer).collect();
@@ -334,7 +340,7 @@ fn oid_of(x: impl Display) -> Oid {
     Oid::from_str(&x.to_string()).expect("oid")
 }
 
-fn labels_of(mask: u8) -> Vec<Label> {
+pub(super) fn labels_of(mask: u8) -> Vec<Label> {
     ["bug", "ux", "p1"]
         .iter()
         .enumerate()
@@ -1030,7 +1036,7 @@ fn opt_shape<T>(o: &Option<T>) -> &'static str {
 
 /// Patch equality up to the order of `State::Open { conflicts }` (direct evaluation collects the
 /// conflicts from a `HashMap`, so two evaluations of the same history may order them differently).
-fn patch_eq(ctx: &Ctx, a: &Patch, b: &Patch) -> bool {
+pub(super) fn patch_eq(ctx: &Ctx, a: &Patch, b: &Patch) -> bool {
     if a == b {
         return true;
     }
@@ -1401,4 +1407,5 @@ fn check(ctx: &Ctx, c: &Case) -> CaseResult {
 
 fn run(ctx: &Ctx) {
     ctx.run("history", case_strategy(), ctx.cases(240, 3200), |c: &Case| check(ctx, c));
+    super::c09b::run(ctx);
 }
